@@ -546,7 +546,9 @@ pub fn check(case: &Case, obs: &mut Obs) {
     }
 
     // ---------- signatures ----------
-    let sigs = signatures(spec, chain, cross, &bc_lib);
+    // only findings listed as open may mask: a fixed entry suppresses nothing
+    let mut sigs = signatures(spec, chain, cross, &bc_lib);
+    sigs.retain(|s| crate::engine::known_open(s.id));
     for sg in &sigs {
         obs.class(format!("signature:{}", sg.id));
     }
